@@ -756,7 +756,7 @@ pub fn bytes_strategy(_tier: Tier) -> BoxedStrategy<Case> {
 pub fn property() -> Property {
     Property {
         id: "C01",
-        rule: "operation histories (<=40 ops quick / <=160 thorough) over Graph<_,_,Directed|Undirected,u8|u16|u32|usize>: add/try_add/update/try_update (valid, self-loop, parallel, absent endpoints), Build trait paths, remove_node/remove_edge (valid and absent), retain_* with mutating closures, reverse, clear*, extend_with_edges, weight writes (get_mut, IndexMut, index_twice_mut, *_weights_mut), map, filter_map (continuing on the result), clone/clone_from, into_edge_type / StableGraph / from_elements round trips, capacity calls, and bulk histories that fill a u8 graph to its 255-element limit; after every step every observable (counts, weights, endpoints, find/contains for all pairs incl. an absent index, neighbour and incident-edge lists in each direction with the documented order, edges_connecting, externals, all whole-graph iterators, detached walkers, raw linked lists) is compared with a reference multigraph; non-trivial = the history contains a renumbering removal followed by a later mutation; distinct by fingerprint of the op sequence",
+        rule: "operation histories (<=40 ops quick / <=160 thorough) over Graph<_,_,Directed|Undirected,u8|u16|u32|usize>: add/try_add/update/try_update (valid, self-loop, parallel, absent endpoints), Build trait paths, remove_node/remove_edge (valid and absent), retain_* with mutating closures, reverse, clear*, extend_with_edges, weight writes (get_mut, IndexMut, index_twice_mut, *_weights_mut), map, filter_map (continuing on the result), clone/clone_from, into_edge_type / StableGraph / from_elements round trips, capacity calls, and bulk histories that fill a u8 graph to its 255-element limit; after every step every observable (counts, weights, endpoints, find/contains for all pairs incl. an absent index, neighbour and incident-edge lists in each direction with the documented order, edges_connecting, externals, all whole-graph iterators, detached walkers, raw linked lists) is compared with a reference multigraph; non-trivial = the history contains a renumbering removal followed by a later mutation; distinct by fingerprint of the op sequence; the *-from-bytes sub-checks feed the same interpreter with histories decoded from generated byte strings by the libFuzzer codec (all operation kinds equally likely, up to the thorough-tier length)",
         assumptions: &[
             "edge renumbering order inside remove_node / retain_* and the indices produced by filter_map when something is removed are not documented: the model adopts the real numbering via unique tags and then checks everything else",
             "relative order of neighbours that went through filter_map / a conversion is not asserted",
